@@ -294,6 +294,9 @@ class Flow:
                         for s, v in self.value(ini[0], S):
                             s = s.copy()
                             self.dom.local_assign(self, s, d["id"], d.get("name"), ini[0], "=", d)
+                            t_ = (d.get("dtype") or d.get("type") or "")
+                            if t_.replace("const ", "").startswith("struct ") and "*" not in t_:
+                                v = d.get("name")          # a struct copy is a new value, not an alias of its source
                             s.env[d["id"]] = v if v is not None else d.get("name")
                             self.dom.local_decl(self, s, d)
                             nxt.append(s)
